@@ -9,8 +9,9 @@ Correspondence: the real Registry.WriteOutputs + TargetResultCache.Write over th
 Oracle (no model): audit of the cache directory by the Go side alone (every visible cas/<d> re-hashes to d; every
                target/<k> unmarshals and references only present blobs, trees included) after the faulty run and after a
                follow-up build; the follow-up build (fresh process, no faults) restores byte-identical outputs for every
-               cached target and rebuilds the others. Thorough tier: the real grog process is killed by strace fault
-               injection at the N-th rename / openat / write for every N of a reference run, then audit + real follow-up build.
+               cached target and rebuilds the others. The real grog process is killed by strace fault injection (SIGKILL on
+               syscall entry) at the first openat/write/close/rename touching each cache entry and at the N-th rename / write /
+               openat of a reference run (quick: 4 kill points, thorough: all), then audit + real follow-up builds.
 """
 import hashlib, json, os, re, shutil, subprocess
 from . import _stores as S
@@ -224,8 +225,7 @@ def run(ctx):
                       {"kind": "correspondence", "correspondence": "backend-operation traces of Registry.WriteOutputs + TargetResultCache.Write vs GrogModel.Store.step",
                        "request": req, "model": y, "rejected_event": rr["events"][at] if 0 <= at < len(rr["events"]) else None,
                        "events": rr["events"], "n_rejected": len(rejected), "n_state_diffs": len(state_diffs)}, found_input=False)
-    if not quick:
-        strace_kills(ctx, stats)
+    strace_kills(ctx, stats)
 
 
 def remote_read_faults(ctx, scratch, stats):
@@ -291,6 +291,11 @@ def snapshot(root):
 
 
 def strace_kills(ctx, stats):
+    """kill the real grog process (SIGKILL on syscall entry, injected by strace) (a) at the first openat / write / close / rename that
+    touches each entry of the cache directory, for every entry a reference build creates (`strace -P <entry>`), and (b) at the N-th
+    rename / write / openat of any thread for N over the counts of a reference run; after each kill: Go-side audit of what is left, then a
+    real follow-up build that must succeed with the clean-build outputs, then a build after deleting the outputs (every target is
+    restored from the cache: a corrupt entry would surface as wrong output content)."""
     grog = ctx.grog_binary()
     if not grog or not shutil.which("strace"):
         ctx.notes.append("strace kill points skipped (grog binary or strace unavailable)")
@@ -305,50 +310,77 @@ def strace_kills(ctx, stats):
         make_workspace(ws)
         return d, ws, dict(env, GROG_ROOT=os.path.join(d, "root"), HOME=d)
 
-    d, ws, e = fresh("ref")
-    log = os.path.join(d, "strace.log")
-    p = subprocess.run(["strace", "-f", "-e", "trace=renameat2,openat,write,renameat,rename", "-o", log, grog, "build", "//..."], cwd=ws, env=e,
+    def cache_entries(root):
+        out = []
+        for dp, dn, fn in os.walk(root):
+            if os.path.basename(os.path.dirname(dp)) == "cache" and os.path.basename(dp) in ("cas", "target"):
+                out += [os.path.join(dp, f) for f in fn if not f.startswith("tmp-")]
+        return sorted(out)
+
+    # reference run in the directory all kill runs use (same workspace path => same cache paths and keys)
+    d, ws, e = fresh("k")
+    log = os.path.join(base, "strace.log")
+    p = subprocess.run(["strace", "-f", "-e", "trace=renameat2,openat,write,renameat,rename,close", "-o", log, grog, "build", "//..."], cwd=ws, env=e,
                        capture_output=True, text=True, timeout=120)
     if p.returncode != 0:
         ctx.notes.append("strace reference build failed: " + (p.stdout + p.stderr)[-400:])
         return
     expected = snapshot(ws)
+    entries = cache_entries(e["GROG_ROOT"])
     counts = {}
     for line in open(log, errors="replace"):
         m = re.match(r"\d+\s+(\w+)\(", line)
         if m:
             counts[m.group(1)] = counts.get(m.group(1), 0) + 1
     stats["strace_reference_counts"] = counts
-    kills = []
-    for sc in ("renameat2", "renameat", "rename", "openat", "write"):
+    stats["strace_cache_entries"] = len(entries)
+    kills = [("path", sc, ent) for ent in entries for sc in ("openat", "write", "close", "renameat", "renameat2")]
+    for sc in ("renameat2", "renameat", "rename", "write", "openat"):
         n = counts.get(sc, 0)
-        step = 1 if sc.startswith("rename") else max(1, n // 40)
-        kills += [(sc, k) for k in range(1, n + 1, step)]
-    done = 0
-    for sc, k in kills:
+        step = 1 if sc.startswith("rename") else (2 if sc == "write" else max(1, n // 20))
+        kills += [("nth", sc, k) for k in range(1, n + 1, step)]
+    if ctx.tier == "quick":
+        # a small sample: first write and first rename on one blob and on one target result
+        pick = [ent for ent in entries if "/cas/" in ent][:1] + [ent for ent in entries if "/target/" in ent][:1]
+        kills = [("path", sc, ent) for ent in pick for sc in ("write", "renameat")]
+    done = effective = 0
+    for mode, sc, arg in kills:
         d, ws, e = fresh("k")
-        subprocess.run(["strace", "-f", "-o", "/dev/null", "-e", "trace=" + sc, "-e", f"inject={sc}:signal=KILL:when={k}", grog, "build", "//..."],
-                       cwd=ws, env=e, capture_output=True, text=True, timeout=120)
-        # audit of what is left, by the Go side
-        cache_dirs = [os.path.join(dp, "cache") for dp, dn, _ in os.walk(e["GROG_ROOT"]) if "cache" in dn]
-        for cd in cache_dirs:
-            a = S.impl(ctx, [{"op": "store.audit", "cache": cd}])[0]
-            if a.get("audit"):
-                ctx.violation("cache directory inconsistent after killing grog at the %d-th %s: %s" % (k, sc, "; ".join(a["audit"][:3])),
-                              {"kind": "oracle", "oracle": "audit after kill", "syscall": sc, "when": k, "audit": a["audit"]}, signature="audit-after-kill")
+        cmd = ["strace", "-f", "-o", "/dev/null", "-e", "trace=" + sc, "-e", f"inject={sc}:signal=KILL:when={1 if mode == 'path' else arg}"]
+        if mode == "path":
+            cmd += ["-P", arg]
+        r = subprocess.run(cmd + [grog, "build", "//..."], cwd=ws, env=e, capture_output=True, text=True, timeout=120)
+        effective += 1 if r.returncode != 0 else 0
+        where = ("first %s on %s" % (sc, "/".join(arg.split("/")[-2:]))) if mode == "path" else ("%d-th %s" % (arg, sc))
+        for dp, dn, _ in os.walk(e["GROG_ROOT"]):
+            if "cache" in dn:
+                a = S.impl(ctx, [{"op": "store.audit", "cache": os.path.join(dp, "cache")}])[0]
+                if a.get("audit"):
+                    ctx.violation("cache directory inconsistent after killing grog at the %s: %s" % (where, "; ".join(a["audit"][:3])),
+                                  {"kind": "oracle", "oracle": "audit after kill", "mode": mode, "syscall": sc, "at": arg, "audit": a["audit"]}, signature="audit-after-kill")
         # stale lock files are C10's subject: remove them, then the follow-up build must succeed and give the clean-build outputs
         for dp, dn, fn in os.walk(e["GROG_ROOT"]):
             for f in fn:
                 if "lock" in f:
                     os.remove(os.path.join(dp, f))
-        q = subprocess.run([grog, "build", "//..."], cwd=ws, env=e, capture_output=True, text=True, timeout=120)
-        got = snapshot(ws) if q.returncode == 0 else None
-        if q.returncode != 0 or got != expected:
-            ctx.violation("the build after killing grog at the %d-th %s fails or produces different outputs" % (k, sc),
-                          {"kind": "oracle", "oracle": "follow-up build after kill", "syscall": sc, "when": k, "rc": q.returncode,
-                           "output": (q.stdout + q.stderr)[-1500:], "differs": sorted(set(expected) ^ set(got or {}))[:10]}, signature="followup-after-kill")
+        for phase in ("follow-up build", "build after deleting the outputs"):
+            if phase != "follow-up build":
+                shutil.rmtree(os.path.join(ws, "pkg", "out"), ignore_errors=True)
+                for f in ("tool", "b.txt"):
+                    if os.path.exists(os.path.join(ws, "pkg", f)):
+                        os.remove(os.path.join(ws, "pkg", f))
+            q = subprocess.run([grog, "build", "//..."], cwd=ws, env=e, capture_output=True, text=True, timeout=120)
+            got = snapshot(ws) if q.returncode == 0 else None
+            if q.returncode != 0 or got != expected:
+                ctx.violation("the %s after killing grog at the %s fails or produces different outputs" % (phase, where),
+                              {"kind": "oracle", "oracle": phase + " after kill", "mode": mode, "syscall": sc, "at": arg, "rc": q.returncode,
+                               "output": (q.stdout + q.stderr)[-1500:],
+                               "differs": sorted(k for k in set(expected) | set(got or {}) if expected.get(k) != (got or {}).get(k))[:10]},
+                              signature="followup-after-kill")
+                break
         done += 1
     stats["strace_kill_runs"] = done
+    stats["strace_kills_that_ended_the_build"] = effective
     ctx.coverage["evaluations"] += done
 
 
